@@ -28,7 +28,6 @@ var (
 	errTooBig    = errors.New("mat: resulting data slice too big")
 	errTooSmall  = errors.New("mat: input slice too small")
 	errBadBuffer = errors.New("mat: data buffer size mismatch")
-	errBadSize   = errors.New("mat: invalid dimension")
 )
 
 // Type encoding scheme:
@@ -163,7 +162,7 @@ func (m *Dense) UnmarshalBinary(data []byte) error {
 		return errWrongType
 	}
 	if rows < 0 || cols < 0 {
-		return errBadSize
+		return ErrShape
 	}
 	size := rows * cols
 	if size == 0 {
@@ -219,7 +218,7 @@ func (m *Dense) UnmarshalBinaryFrom(r io.Reader) (int, error) {
 		return n, errWrongType
 	}
 	if rows < 0 || cols < 0 {
-		return n, errBadSize
+		return n, ErrShape
 	}
 	size := rows * cols
 	if size == 0 {
@@ -356,7 +355,7 @@ func (v *VecDense) UnmarshalBinary(data []byte) error {
 		return ErrZeroLength
 	}
 	if n < 0 {
-		return errBadSize
+		return ErrShape
 	}
 	if maxLen/int64(sizeFloat64) < n {
 		return errTooBig
@@ -405,7 +404,7 @@ func (v *VecDense) UnmarshalBinaryFrom(r io.Reader) (int, error) {
 		return n, ErrZeroLength
 	}
 	if l < 0 {
-		return n, errBadSize
+		return n, ErrShape
 	}
 	if maxLen/int64(sizeFloat64) < l {
 		return n, errTooBig
